@@ -688,4 +688,96 @@ mod verif_proofs {
         core::mem::forget(r);
         assert!(false);
     }
+
+    // ------------------------------------------------------------------------------------------
+    // C14: base64 / base64url presentations of binary members
+    // ------------------------------------------------------------------------------------------
+
+    const STD: &[u8; 64] = b"ABCDEFGHIJKLMNOPQRSTUVWXYZabcdefghijklmnopqrstuvwxyz0123456789+/";
+    const URL: &[u8; 64] = b"ABCDEFGHIJKLMNOPQRSTUVWXYZabcdefghijklmnopqrstuvwxyz0123456789-_";
+
+    /// reference RFC 4648 encoder for N <= 3 bytes (one quantum), with `pad` '=' characters appended
+    fn ref_b64<const N: usize>(d: &[u8; N], alphabet: &[u8; 64], padded: bool, out: &mut [u8; 4]) -> usize {
+        let b0 = d[0] as u32;
+        let b1 = if N > 1 { d[1] as u32 } else { 0 };
+        let b2 = if N > 2 { d[2] as u32 } else { 0 };
+        let w = (b0 << 16) | (b1 << 8) | b2;
+        out[0] = alphabet[((w >> 18) & 63) as usize];
+        out[1] = alphabet[((w >> 12) & 63) as usize];
+        let mut n = 2;
+        if N > 1 {
+            out[2] = alphabet[((w >> 6) & 63) as usize];
+            n = 3;
+        }
+        if N > 2 {
+            out[3] = alphabet[(w & 63) as usize];
+            n = 4;
+        }
+        if padded {
+            while n < 4 {
+                out[n] = b'=';
+                n += 1;
+            }
+        }
+        n
+    }
+
+    /// every presentation (base64 / base64url, padded or not) of N bytes decodes to those bytes
+    fn base64_presentations<const N: usize>() {
+        let d: [u8; N] = kani::any();
+        let url: bool = kani::any();
+        let padded: bool = kani::any();
+        let mut buf = [0u8; 4];
+        let n = ref_b64::<N>(&d, if url { URL } else { STD }, padded, &mut buf);
+        let s = unsafe { core::str::from_utf8_unchecked(&buf[..n]) };
+        let got = crate::Bytes::try_from(s);
+        match got {
+            Ok(b) => {
+                assert!(b.len() == N);
+                let mut i = 0;
+                while i < N {
+                    assert!(b[i] == d[i]);
+                    i += 1;
+                }
+                core::mem::forget(b);
+            }
+            Err(_) => assert!(false),
+        }
+        // the library's own encoders produce the unpadded forms
+        if !padded {
+            let enc = if url { crate::encoding::base64url(&d) } else { crate::encoding::base64(&d) };
+            assert!(enc.len() == n);
+            let mut i = 0;
+            while i < n {
+                assert!(enc.as_bytes()[i] == buf[i]);
+                i += 1;
+            }
+            core::mem::forget(enc);
+        }
+        kani::cover!(url && padded);
+        kani::cover!(!url && padded);
+        kani::cover!(!url && !padded);
+    }
+
+    #[kani::proof]
+    #[kani::unwind(260)]
+    fn c14_base64_presentations_1() {
+        base64_presentations::<1>();
+    }
+    #[kani::proof]
+    #[kani::unwind(260)]
+    fn c14_base64_presentations_2() {
+        base64_presentations::<2>();
+    }
+    #[kani::proof]
+    #[kani::unwind(260)]
+    fn c14_base64_presentations_3() {
+        base64_presentations::<3>();
+    }
+    #[kani::proof]
+    #[kani::unwind(260)]
+    fn c14_base64_twin() {
+        base64_presentations::<2>();
+        assert!(false);
+    }
 }
